@@ -66,7 +66,7 @@ def _csr_text(A):
     return f'{A.shape[0]}:{A.shape[1]}:{enc_ints(A.indptr)}:{enc_ints(A.indices[:nnz])}:{enc_rats(A.data[:nnz])}'
 
 
-def part_w(ctx, graphs):
+def part_w(ctx, graphs, defer=None):
     rng = ctx.np_rng
     jobs = []
     for t, (M, gkind) in enumerate(graphs):
@@ -78,7 +78,7 @@ def part_w(ctx, graphs):
         theta = [0.0, 0.25, 0.5, 0.25][int(rng.integers(4))]
         norm = ['min', 'abs'][int(rng.integers(2))]
         jobs.append((A, kind, matchings, theta, norm, bool(((M - np.diag(np.diag(M))) != 0).any())))
-    run_jobs(ctx, jobs)
+    run_jobs(ctx, jobs, defer)
 
 
 def replay_w(ctx, c):
@@ -89,7 +89,7 @@ def replay_w(ctx, c):
     run_jobs(ctx, [(A, 'replay', int(c['matchings']), float(c['theta']), str(c['norm']), True)])
 
 
-def run_jobs(ctx, jobs):
+def run_jobs(ctx, jobs, defer=None):
     from pyamg.aggregation import aggregate as AG
     import warnings
     items = []
@@ -113,34 +113,43 @@ def run_jobs(ctx, jobs):
         finally:
             AG.amg_core.pairwise_aggregation = orig
         items.append((line, A, kind, matchings, theta, norm, T, cpts, ks, err, has_edge))
-    outs = ctx.lean([it[0] for it in items]) if items else []
-    for (line, A, kind, matchings, theta, norm, T, cpts, ks, err, has_edge), o in zip(items, outs):
-        n = A.shape[0]
-        case = {'routine': 'pairwise_wrapper', 'n': n, 'indptr': [int(v) for v in A.indptr],
-                'indices': [int(v) for v in A.indices], 'data': [float(v) for v in A.data],
-                'matchings': matchings, 'theta': theta, 'norm': norm}
-        ctx.case(key=_key(line), nontrivial=has_edge,
-                 sample={'request': line[:300], 'model': o[:200]} if ctx.evaluations % 97 == 0 else None)
-        ctx.feat('wrapper:' + kind)
-        ctx.feat(f'wrapper:matchings={matchings}')
-        ctx.feat(f'wrapper:levels={len(ks)}')
-        if err is not None:
-            ctx.violation(f'pairwise_aggregation(matchings={matchings}, theta={theta}, norm={norm}) raised {err}', case)
-            continue
-        T = sp.csr_array(T)
-        nnz = int(T.indptr[-1])
-        D = T.toarray()
-        F = [int(np.argmax(D[i])) if D[i].any() else -1 for i in range(n)]
-        impl = (f'{T.shape[0]}:{T.shape[1]}:{enc_ints(T.indptr)}:{enc_ints(T.indices[:nnz])}:{enc_ints(T.data[:nnz])};'
-                f'{enc_ints(cpts)};{enc_ints(ks)};{enc_ints(F)}')
-        if o != impl:
-            ctx.corr('pairwise wrapper vs C12ZW.wrapper', case, o[:600], impl[:600])
-            from props.c12 import check_aggop
-            e = check_aggop(T, cpts, n, 'pairwise')
-            if not e:
-                if D.sum(1).min() != 1:
-                    e = 'a node is left unaggregated'
-                elif D.sum(0).max() > 2 ** matchings:
-                    e = f'an aggregate has {int(D.sum(0).max())} > 2^{matchings} nodes'
-            if e:
-                ctx.violation(f'pairwise_aggregation(matchings={matchings}, theta={theta}, norm={norm}): {e}', case)
+    def finish(outs):
+        for (line, A, kind, matchings, theta, norm, T, cpts, ks, err, has_edge), o in zip(items, outs):
+            n = A.shape[0]
+            case = {'routine': 'pairwise_wrapper', 'n': n, 'indptr': [int(v) for v in A.indptr],
+                    'indices': [int(v) for v in A.indices], 'data': [float(v) for v in A.data],
+                    'matchings': matchings, 'theta': theta, 'norm': norm}
+            ctx.case(key=_key(line), nontrivial=has_edge,
+                     sample={'request': line[:300], 'model': o[:200]} if ctx.evaluations % 97 == 0 else None)
+            ctx.feat('wrapper:' + kind)
+            ctx.feat(f'wrapper:matchings={matchings}')
+            ctx.feat(f'wrapper:levels={len(ks)}')
+            if err is not None:
+                ctx.violation(f'pairwise_aggregation(matchings={matchings}, theta={theta}, norm={norm}) raised {err}', case)
+                continue
+            T = sp.csr_array(T)
+            nnz = int(T.indptr[-1])
+            D = T.toarray()
+            F = [int(np.argmax(D[i])) if D[i].any() else -1 for i in range(n)]
+            impl = (f'{T.shape[0]}:{T.shape[1]}:{enc_ints(T.indptr)}:{enc_ints(T.indices[:nnz])}:{enc_ints(T.data[:nnz])};'
+                    f'{enc_ints(cpts)};{enc_ints(ks)};{enc_ints(F)}')
+            if o != impl:
+                ctx.corr('pairwise wrapper vs C12ZW.wrapper', case, o[:600], impl[:600])
+                from props.c12 import check_aggop
+                e = check_aggop(T, cpts, n, 'pairwise')
+                if not e:
+                    if D.sum(1).min() != 1:
+                        e = 'a node is left unaggregated'
+                    elif D.sum(0).max() > 2 ** matchings:
+                        e = f'an aggregate has {int(D.sum(0).max())} > 2^{matchings} nodes'
+                if e:
+                    ctx.violation(f'pairwise_aggregation(matchings={matchings}, theta={theta}, norm={norm}): {e}', case)
+
+    _dispatch(ctx, [it[0] for it in items], finish, defer)
+
+
+def _dispatch(ctx, lines, finish, defer):
+    if defer is None:
+        finish(ctx.lean(lines) if lines else [])
+    else:
+        defer.append((lines, finish))
